@@ -1,4 +1,758 @@
 package main
 
-func cmdCheck(args []string) int    { return 2 }
-func cmdSelftest(args []string) int { return 2 }
+import (
+	"bytes"
+	"context"
+	"encoding/json"
+	"fmt"
+	"os"
+	"os/exec"
+	"path/filepath"
+	"sort"
+	"strconv"
+	"strings"
+	"sync"
+	"time"
+
+	"verif/engine"
+)
+
+// Entry is one harness function explored under fixed bounds.
+type Entry struct {
+	Pkg      string           // package directory relative to the repo root
+	Func     string           // harness entry point
+	Shards   int              // lib.VerifShard fan-out (separate executors, run in parallel)
+	Params   map[string]int64 // bounds for the quick tier
+	Thorough map[string]int64 // overrides for the thorough tier
+	TShards  int              // shard count in the thorough tier (0 = same)
+	Solver   string
+	MaxDec   int
+	MaxSteps int
+	Tier     string // "" both, "thorough" only in thorough
+	TimeoutS int
+	NoInit   bool
+	What     string // one line: what is encoded / asserted
+}
+
+// Check is everything run for one property.
+type Check struct {
+	ID      string
+	Entries []Entry
+	Level   string
+}
+
+// Finding is a recorded genuine defect (known_findings.json, never written at run time).
+type Finding struct {
+	Property string `json:"property"`
+	Name     string `json:"name"`   // exclusion switch: lib.VerifParam("known:<name>")
+	Entry    string `json:"entry"`  // harness function it belongs to
+	Status   string `json:"status"` // "open" | "fixed"
+	Commit   string `json:"commit,omitempty"`
+	What     string `json:"what"`
+}
+
+type runResult struct {
+	entry   Entry
+	shard   int
+	mode    string // "", "excl", "only:<name>"
+	params  map[string]int64
+	rep     *engine.Report
+	x       *engine.Exec
+	err     error
+	seconds float64
+	queries int
+	sat     int
+	unsat   int
+	unknown int
+	solverS float64
+	funcs   []string
+	stubs   []string
+	assumes map[string]int
+	samples []map[string]uint64
+	maxdec  int
+	skipped map[string]int
+}
+
+func loadFindings(vdir string) []Finding {
+	var fs []Finding
+	b, err := os.ReadFile(filepath.Join(vdir, "known_findings.json"))
+	if err != nil {
+		return nil
+	}
+	var doc struct {
+		Findings []Finding `json:"findings"`
+	}
+	if json.Unmarshal(b, &doc) == nil {
+		fs = doc.Findings
+	}
+	return fs
+}
+
+func cmdCheck(args []string) int {
+	if len(args) < 1 {
+		fmt.Fprintln(os.Stderr, "usage: gosym check <ID> [quick|thorough]")
+		return 2
+	}
+	id := args[0]
+	tier := "quick"
+	if len(args) > 1 {
+		tier = args[1]
+	}
+	if t := os.Getenv("VERIF_TIER"); t != "" && len(args) < 2 {
+		tier = t
+	}
+	seed, _ := strconv.Atoi(env("VERIF_SEED", "0"))
+	repo := env("VERIF_REPO", "/repo")
+	vdir := env("VERIF_DIR", "/verif")
+	t0 := time.Now()
+
+	var chk *Check
+	for i := range Checks {
+		if Checks[i].ID == id {
+			chk = &Checks[i]
+		}
+	}
+	if chk == nil {
+		fmt.Fprintln(os.Stderr, "unknown check", id)
+		return 2
+	}
+	os.MkdirAll(filepath.Join(vdir, "out", "replay"), 0o755)
+	os.MkdirAll(filepath.Join(vdir, "evidence"), 0o755)
+
+	// packages
+	pkgSet := map[string]bool{}
+	var entries []Entry
+	for _, e := range chk.Entries {
+		if e.Tier == "thorough" && tier != "thorough" {
+			continue
+		}
+		entries = append(entries, e)
+		pkgSet[e.Pkg] = true
+	}
+	var pkgs []string
+	for p := range pkgSet {
+		pkgs = append(pkgs, p)
+	}
+	sort.Strings(pkgs)
+	ov, err := engine.OverlayFor(vdir, repo, pkgs)
+	if err != nil {
+		fmt.Fprintln(os.Stderr, "overlay:", err)
+		return 2
+	}
+	var patterns []string
+	for _, p := range pkgs {
+		patterns = append(patterns, "./"+p)
+	}
+	tl := time.Now()
+	ld, err := engine.Load(repo, patterns, ov)
+	if err != nil {
+		fmt.Fprintf(os.Stderr, "INCONCLUSIVE property=%s: %v\n", id, err)
+		writeEvidence(vdir, id, tier, seed, nil, nil, nil, time.Since(t0).Seconds(), []string{"load failed: " + err.Error()}, 0)
+		return 2
+	}
+	loadS := time.Since(tl).Seconds()
+
+	findings := loadFindings(vdir)
+	openFor := func(entry string) []Finding {
+		var out []Finding
+		for _, f := range findings {
+			if f.Property == id && f.Entry == entry && f.Status == "open" {
+				out = append(out, f)
+			}
+		}
+		return out
+	}
+
+	// build the job list
+	type job struct {
+		e      Entry
+		shard  int
+		mode   string
+		params map[string]int64
+	}
+	var jobs []job
+	for _, e := range entries {
+		shards := e.Shards
+		if tier == "thorough" && e.TShards > 0 {
+			shards = e.TShards
+		}
+		if shards < 1 {
+			shards = 1
+		}
+		base := map[string]int64{}
+		for k, v := range e.Params {
+			base[k] = v
+		}
+		if tier == "thorough" {
+			for k, v := range e.Thorough {
+				base[k] = v
+			}
+		}
+		base["shards"] = int64(shards)
+		of := openFor(e.Func)
+		for s := 0; s < shards; s++ {
+			if len(of) == 0 {
+				jobs = append(jobs, job{e, s, "", base})
+				continue
+			}
+			// (a) all recorded findings excluded: anything found here is new
+			pa := map[string]int64{}
+			for k, v := range base {
+				pa[k] = v
+			}
+			for _, f := range of {
+				pa["known:"+f.Name] = 1
+			}
+			jobs = append(jobs, job{e, s, "excl", pa})
+			// (b) one run per finding restricted to its class
+			for _, f := range of {
+				pb := map[string]int64{}
+				for k, v := range base {
+					pb[k] = v
+				}
+				for _, g := range of {
+					pb["known:"+g.Name] = 1
+				}
+				pb["known:"+f.Name] = 2
+				jobs = append(jobs, job{e, s, "only:" + f.Name, pb})
+			}
+		}
+	}
+
+	budget := 20 * time.Minute
+	if tier == "thorough" {
+		budget = 3 * time.Hour
+	}
+	if b := os.Getenv("VERIF_BUDGET_S"); b != "" {
+		if n, err := strconv.Atoi(b); err == nil {
+			budget = time.Duration(n) * time.Second
+		}
+	}
+	deadline := t0.Add(budget)
+
+	results := make([]*runResult, len(jobs))
+	sem := make(chan struct{}, 16)
+	var wg sync.WaitGroup
+	for i, j := range jobs {
+		wg.Add(1)
+		go func(i int, j job) {
+			defer wg.Done()
+			sem <- struct{}{}
+			defer func() { <-sem }()
+			results[i] = runJob(ld, j.e, j.shard, j.mode, j.params, deadline)
+		}(i, j)
+	}
+	wg.Wait()
+
+	// collect
+	var inconcl []string
+	type vrec struct {
+		r *runResult
+		v engine.Violation
+	}
+	var viols []vrec
+	for _, r := range results {
+		if r.err != nil {
+			inconcl = append(inconcl, fmt.Sprintf("%s[%d]%s: %v", r.entry.Func, r.shard, r.mode, r.err))
+			continue
+		}
+		for _, n := range r.rep.Inconcl {
+			inconcl = append(inconcl, fmt.Sprintf("%s[%d]%s: %s", r.entry.Func, r.shard, r.mode, n))
+		}
+		for _, v := range r.rep.Violations {
+			viols = append(viols, vrec{r, v})
+		}
+	}
+
+	// replay: violations (one per entry/mode/tag) and one witness path per run
+	type replayItem struct {
+		entry  Entry
+		file   string
+		expect string // tag expected to fail, "" for a witness
+		kind   string
+		mode   string
+		reach  map[string]int
+		vi     int
+	}
+	var items []replayItem
+	seenTag := map[string]bool{}
+	for i, vr := range viols {
+		key := vr.r.entry.Func + "|" + vr.r.mode + "|" + vr.v.Tag
+		if seenTag[key] {
+			continue
+		}
+		seenTag[key] = true
+		f := filepath.Join(vdir, "out", "replay", fmt.Sprintf("%s-%s-%d.json", id, vr.r.entry.Func, i))
+		writeReplay(f, vr.v.Tag, vr.v.Inputs, vr.r.params, vr.r.shard)
+		items = append(items, replayItem{entry: vr.r.entry, file: f, expect: vr.v.Tag, mode: vr.r.mode, vi: i})
+	}
+	witnessOf := map[string]bool{}
+	for i, r := range results {
+		if r.err != nil || len(r.samples) == 0 || witnessOf[r.entry.Func] {
+			continue
+		}
+		if len(r.rep.Violations) > 0 && r.mode == "" {
+			continue
+		}
+		witnessOf[r.entry.Func] = true
+		f := filepath.Join(vdir, "out", "replay", fmt.Sprintf("%s-%s-witness%d.json", id, r.entry.Func, i))
+		writeReplay(f, "", r.samples[0], r.params, r.shard)
+		items = append(items, replayItem{entry: r.entry, file: f, kind: "witness", mode: r.mode, vi: -1})
+	}
+	confirmed := map[int]string{}
+	witnessOK, witnessBad := 0, 0
+	var witnessNotes []string
+	if len(items) > 0 && os.Getenv("VERIF_NOREPLAY") == "" {
+		byPkg := map[string][]int{}
+		for i, it := range items {
+			byPkg[it.entry.Pkg] = append(byPkg[it.entry.Pkg], i)
+		}
+		var mu sync.Mutex
+		var wg2 sync.WaitGroup
+		for pkg, idx := range byPkg {
+			wg2.Add(1)
+			go func(pkg string, idx []int) {
+				defer wg2.Done()
+				var list []string
+				funcs := map[string]bool{}
+				for _, i := range idx {
+					list = append(list, items[i].entry.Func+"="+items[i].file)
+					funcs[items[i].entry.Func] = true
+				}
+				out := nativeReplay(vdir, repo, pkg, id, funcs, list)
+				mu.Lock()
+				defer mu.Unlock()
+				for k, i := range idx {
+					it := items[i]
+					sec := section(out, k)
+					if it.kind == "witness" {
+						if strings.Contains(sec, "VERIF-REPLAY-END") && !strings.Contains(sec, "VERIF-ASSERT-FAILED") &&
+							!strings.Contains(sec, "VERIF-PANIC") && !strings.Contains(sec, "VERIF-ASSUME-FAILED") && !strings.Contains(sec, "VERIF-HANG") {
+							witnessOK++
+						} else {
+							witnessBad++
+							witnessNotes = append(witnessNotes, fmt.Sprintf("witness of %s did not replay cleanly: %s", it.entry.Func, oneLine(sec)))
+						}
+						continue
+					}
+					confirmed[it.vi] = classify(sec, it.expect)
+				}
+			}(pkg, idx)
+		}
+		wg2.Wait()
+	}
+
+	// verdicts
+	exit := 0
+	nviol := 0
+	knownPrinted := map[string]bool{}
+	fmap := map[string]Finding{}
+	for _, f := range findings {
+		fmap[f.Name] = f
+	}
+	seenTag = map[string]bool{}
+	for i, vr := range viols {
+		key := vr.r.entry.Func + "|" + vr.r.mode + "|" + vr.v.Tag
+		if seenTag[key] {
+			continue
+		}
+		seenTag[key] = true
+		c := confirmed[i]
+		replayFile := filepath.Join(vdir, "out", "replay", fmt.Sprintf("%s-%s-%d.json", id, vr.r.entry.Func, i))
+		if os.Getenv("VERIF_NOREPLAY") != "" {
+			c = "confirmed(no-replay)"
+		}
+		viols[i].v.Confirmed = c
+		if strings.HasPrefix(vr.r.mode, "only:") {
+			name := strings.TrimPrefix(vr.r.mode, "only:")
+			if strings.HasPrefix(c, "confirmed") {
+				if !knownPrinted[name] {
+					knownPrinted[name] = true
+					fmt.Printf("KNOWN-FINDING: property=%s %s [%s; replay=%s]\n", id, fmap[name].What, vr.v.Tag, replayFile)
+				}
+			} else {
+				inconcl = append(inconcl, fmt.Sprintf("known finding %s: model found but native replay says %q", name, c))
+			}
+			continue
+		}
+		if strings.HasPrefix(c, "confirmed") {
+			fmt.Printf("VIOLATION property=%s replay=%s\n", id, replayFile)
+			fmt.Printf("  entry=%s tag=%q inputs=%s\n", vr.r.entry.Func, vr.v.Tag, compactInputs(vr.v))
+			exit = 1
+			nviol++
+		} else {
+			fmt.Printf("UNCONFIRMED property=%s entry=%s tag=%q replay=%s native=%q\n", id, vr.r.entry.Func, vr.v.Tag, replayFile, c)
+			inconcl = append(inconcl, fmt.Sprintf("counterexample for %q did not reproduce natively (%s)", vr.v.Tag, c))
+		}
+	}
+	for _, n := range witnessNotes {
+		inconcl = append(inconcl, n)
+	}
+
+	// vacuity: every entry must have at least one completed path and reach its tags
+	for _, r := range results {
+		if r.err == nil && r.rep.PathKinds["done"] == 0 && r.rep.PathKinds["violation-stop"] == 0 && !strings.HasPrefix(r.mode, "only:") {
+			if r.rep.PathKinds["panic"]+r.rep.PathKinds["hang"]+r.rep.PathKinds["panic-goroutine"] == 0 {
+				inconcl = append(inconcl, fmt.Sprintf("%s[%d]%s: no path ran to completion (vacuous)", r.entry.Func, r.shard, r.mode))
+			}
+		}
+	}
+
+	var rr []*runResult
+	for _, r := range results {
+		rr = append(rr, r)
+	}
+	var vv []engine.Violation
+	for _, v := range viols {
+		vv = append(vv, v.v)
+	}
+	wall := time.Since(t0).Seconds()
+	writeEvidence(vdir, id, tier, seed, rr, vv, map[string]interface{}{
+		"load_s": loadS, "witness_replayed_ok": witnessOK, "witness_replay_failed": witnessBad,
+		"known_findings_reproduced": keys(knownPrinted),
+	}, wall, inconcl, nviol)
+
+	if exit == 0 && len(inconcl) > 0 {
+		for _, n := range inconcl {
+			fmt.Printf("INCONCLUSIVE property=%s: %s\n", id, oneLine(n))
+		}
+		return 2
+	}
+	if exit == 0 {
+		tot := 0
+		q := 0
+		for _, r := range results {
+			tot += r.rep.Paths
+			q += r.queries
+		}
+		fmt.Printf("OK property=%s tier=%s entries=%d runs=%d paths=%d queries=%d wall=%.1fs\n", id, tier, len(entries), len(results), tot, q, wall)
+	}
+	return exit
+}
+
+func keys(m map[string]bool) []string {
+	var out []string
+	for k := range m {
+		out = append(out, k)
+	}
+	sort.Strings(out)
+	return out
+}
+
+func oneLine(s string) string {
+	s = strings.ReplaceAll(s, "\n", " | ")
+	if len(s) > 400 {
+		s = s[:400] + "…"
+	}
+	return s
+}
+
+func compactInputs(v engine.Violation) string {
+	var parts []string
+	for _, k := range v.Order {
+		parts = append(parts, fmt.Sprintf("%s=%d", k, v.Inputs[k]))
+		if len(parts) > 24 {
+			parts = append(parts, "…")
+			break
+		}
+	}
+	return strings.Join(parts, ",")
+}
+
+func runJob(ld *engine.Loaded, e Entry, shard int, mode string, params map[string]int64, deadline time.Time) *runResult {
+	r := &runResult{entry: e, shard: shard, mode: mode, params: params}
+	t0 := time.Now()
+	p := ld.Pkgs["ergo.services/ergo/"+e.Pkg]
+	if p == nil {
+		r.err = fmt.Errorf("package %s not loaded", e.Pkg)
+		return r
+	}
+	fn := p.Func(e.Func)
+	if fn == nil {
+		r.err = fmt.Errorf("harness entry %s not found", e.Func)
+		return r
+	}
+	cfg := engine.Config{Solver: e.Solver, Shard: shard, MaxDecisions: e.MaxDec, MaxSteps: e.MaxSteps, Params: params, Deadline: deadline, TimeoutS: e.TimeoutS}
+	x, err := engine.NewExec(ld.Prog, cfg)
+	if err != nil {
+		r.err = err
+		return r
+	}
+	defer x.Close()
+	if !e.NoInit {
+		if err := x.RunInit(p); err != nil {
+			r.err = err
+			return r
+		}
+	}
+	r.rep = x.Explore(fn)
+	s := x.Solver()
+	r.queries, r.sat, r.unsat, r.unknown, r.solverS = s.Queries, s.NSat, s.NUnsat, s.NUnknown, s.Seconds
+	r.funcs = engine.SortedKeys(x.Funcs)
+	r.stubs = engine.SortedKeys(x.Intrinsics)
+	r.assumes = x.Assumes
+	r.samples = x.Samples
+	r.maxdec = x.MaxDepthDec
+	r.seconds = time.Since(t0).Seconds()
+	if len(s.Errors) > 0 {
+		r.rep.Inconcl = append(r.rep.Inconcl, "solver error lines: "+oneLine(strings.Join(s.Errors, "; ")))
+	}
+	return r
+}
+
+func writeReplay(path, tag string, inputs map[string]uint64, params map[string]int64, shard int) {
+	doc := map[string]interface{}{"tag": tag, "inputs": inputs, "params": params, "shard": shard}
+	b, _ := json.MarshalIndent(doc, "", " ")
+	os.WriteFile(path, b, 0o644)
+}
+
+// nativeReplay builds the real package with the harness overlay and runs the listed replays.
+func nativeReplay(vdir, repo, pkg, id string, funcs map[string]bool, list []string) string {
+	var names []string
+	for f := range funcs {
+		names = append(names, f)
+	}
+	sort.Strings(names)
+	pkgName := filepath.Base(pkg)
+	if b, err := os.ReadFile(filepath.Join(vdir, "harness", pkg, "PKGNAME")); err == nil {
+		pkgName = strings.TrimSpace(string(b))
+	}
+	var sb strings.Builder
+	sb.WriteString("//go:build verif\n\npackage " + pkgName + "\n\nimport (\n\t\"fmt\"\n\t\"os\"\n\t\"strings\"\n\t\"testing\"\n\t\"time\"\n\n")
+	if pkg != "lib" {
+		sb.WriteString("\t\"ergo.services/ergo/lib\"\n)\n\n")
+		sb.WriteString("var verifLoad = lib.VerifLoadReplay\nvar verifReached = func() map[string]int { return lib.VerifReached }\nfunc verifIsAssume(r any) bool { _, ok := r.(lib.VerifAssumeFailed); return ok }\n")
+	} else {
+		sb.WriteString(")\n\nvar verifLoad = VerifLoadReplay\nvar verifReached = func() map[string]int { return VerifReached }\nfunc verifIsAssume(r any) bool { _, ok := r.(VerifAssumeFailed); return ok }\n")
+	}
+	sb.WriteString("\nvar verifEntries = map[string]func(){\n")
+	for _, n := range names {
+		sb.WriteString(fmt.Sprintf("\t%q: %s,\n", n, n))
+	}
+	sb.WriteString(`}
+
+func TestVerifReplay(t *testing.T) {
+	for i, item := range strings.Split(os.Getenv("VERIF_REPLAY"), ";") {
+		kv := strings.SplitN(item, "=", 2)
+		fmt.Printf("VERIF-REPLAY-BEGIN %d %s\n", i, kv[0])
+		if err := verifLoad(kv[1]); err != nil {
+			fmt.Println("VERIF-LOAD-ERROR", err)
+			continue
+		}
+		done := make(chan struct{})
+		go func() {
+			defer close(done)
+			defer func() {
+				if r := recover(); r != nil {
+					if verifIsAssume(r) {
+						fmt.Println("VERIF-ASSUME-FAILED")
+					} else {
+						fmt.Printf("VERIF-PANIC %v\n", r)
+					}
+				}
+			}()
+			verifEntries[kv[0]]()
+		}()
+		select {
+		case <-done:
+		case <-time.After(20 * time.Second):
+			fmt.Println("VERIF-HANG")
+		}
+		for k := range verifReached() {
+			fmt.Printf("VERIF-REACH %q\n", k)
+		}
+		fmt.Printf("VERIF-REPLAY-END %d\n", i)
+	}
+}
+`)
+	dir := filepath.Join(vdir, "out", "replay")
+	testFile := filepath.Join(dir, fmt.Sprintf("%s_%s_replay_test.go", id, strings.ReplaceAll(pkg, "/", "_")))
+	os.WriteFile(testFile, []byte(sb.String()), 0o644)
+	repl := map[string]string{
+		filepath.Join(repo, "lib", "zz_verif_rt.go"):           filepath.Join(vdir, "rt", "zz_verif_rt.go"),
+		filepath.Join(repo, pkg, "zz_verif_replay_test.go"): testFile,
+	}
+	files, _ := filepath.Glob(filepath.Join(vdir, "harness", pkg, "*.go"))
+	for _, f := range files {
+		repl[filepath.Join(repo, pkg, "zz_verif_"+filepath.Base(f))] = f
+	}
+	ovb, _ := json.Marshal(map[string]interface{}{"Replace": repl})
+	ovFile := filepath.Join(dir, fmt.Sprintf("%s_%s_overlay.json", id, strings.ReplaceAll(pkg, "/", "_")))
+	os.WriteFile(ovFile, ovb, 0o644)
+	ctx, cancel := context.WithTimeout(context.Background(), 10*time.Minute)
+	defer cancel()
+	cmd := exec.CommandContext(ctx, "go", "test", "-tags", "verif", "-vet=off", "-count=1", "-overlay", ovFile,
+		"-run", "^TestVerifReplay$", "-timeout", "9m", "-v", "./"+pkg)
+	cmd.Dir = repo
+	cmd.Env = append(os.Environ(), "GOFLAGS=-mod=mod", "GOPROXY=off", "GOSUMDB=off", "GOTOOLCHAIN=local",
+		"VERIF_REPLAY="+strings.Join(list, ";"))
+	var out bytes.Buffer
+	cmd.Stdout = &out
+	cmd.Stderr = &out
+	cmd.Run()
+	os.WriteFile(filepath.Join(dir, fmt.Sprintf("%s_%s_replay.log", id, strings.ReplaceAll(pkg, "/", "_"))), out.Bytes(), 0o644)
+	return out.String()
+}
+
+// section returns the output between VERIF-REPLAY-BEGIN k and VERIF-REPLAY-END k (inclusive).
+func section(out string, k int) string {
+	b := fmt.Sprintf("VERIF-REPLAY-BEGIN %d ", k)
+	i := strings.Index(out, b)
+	if i < 0 {
+		return "(no output; build failed?) " + lastLines(out, 6)
+	}
+	rest := out[i:]
+	e := fmt.Sprintf("VERIF-REPLAY-END %d\n", k)
+	j := strings.Index(rest, e)
+	if j < 0 {
+		return rest
+	}
+	return rest[:j+len(e)]
+}
+
+func lastLines(s string, n int) string {
+	ls := strings.Split(strings.TrimSpace(s), "\n")
+	if len(ls) > n {
+		ls = ls[len(ls)-n:]
+	}
+	return strings.Join(ls, " | ")
+}
+
+func classify(sec, tag string) string {
+	switch {
+	case strings.Contains(sec, "VERIF-ASSUME-FAILED"):
+		return "assume-failed"
+	case strings.HasPrefix(tag, "uncaught"):
+		if strings.Contains(sec, "VERIF-PANIC") || strings.Contains(sec, "panic:") || strings.Contains(sec, "fatal error:") {
+			return "confirmed(panic)"
+		}
+	case tag == "hang":
+		if strings.Contains(sec, "VERIF-HANG") || strings.Contains(sec, "all goroutines are asleep") {
+			return "confirmed(hang)"
+		}
+	default:
+		if strings.Contains(sec, fmt.Sprintf("VERIF-ASSERT-FAILED tag=%q", tag)) {
+			return "confirmed"
+		}
+	}
+	return "not-reproduced: " + oneLine(sec)
+}
+
+func writeEvidence(vdir, id, tier string, seed int, rs []*runResult, viols []engine.Violation, extra map[string]interface{}, wall float64, inconcl []string, nviol int) {
+	paths, queries, sat, unsat, unknown := 0, 0, 0, 0, 0
+	solverS := 0.0
+	funcs := map[string]bool{}
+	stubs := map[string]bool{}
+	assumes := map[string]bool{}
+	reach := map[string]int{}
+	var samples []interface{}
+	var runs []interface{}
+	kinds := map[string]int{}
+	for _, r := range rs {
+		if r == nil || r.rep == nil {
+			continue
+		}
+		paths += r.rep.Paths
+		queries += r.queries
+		sat += r.sat
+		unsat += r.unsat
+		unknown += r.unknown
+		solverS += r.solverS
+		for _, f := range r.funcs {
+			funcs[f] = true
+		}
+		for _, f := range r.stubs {
+			stubs[f] = true
+		}
+		for a := range r.assumes {
+			assumes[a] = true
+		}
+		for k, v := range r.rep.Reached {
+			reach[k] += v
+		}
+		for k, v := range r.rep.PathKinds {
+			kinds[k] += v
+		}
+		if len(samples) < 6 && len(r.samples) > 0 {
+			samples = append(samples, map[string]interface{}{"entry": r.entry.Func, "shard": r.shard, "inputs_of_one_explored_path": r.samples[0]})
+		}
+		runs = append(runs, map[string]interface{}{
+			"entry": r.entry.Func, "shard": r.shard, "mode": r.mode, "what": r.entry.What, "bounds": r.params,
+			"paths": r.rep.Paths, "path_kinds": r.rep.PathKinds, "max_decisions_on_a_path": r.maxdec, "queries": r.queries,
+			"solver": solverName(r.entry.Solver), "solver_s": round2(r.solverS), "wall_s": round2(r.seconds),
+			"violations": len(r.rep.Violations),
+		})
+	}
+	if len(samples) == 0 {
+		samples = append(samples, "no completed path")
+	}
+	wit := 0
+	if extra != nil {
+		if w, ok := extra["witness_replayed_ok"].(int); ok {
+			wit = w
+		}
+	}
+	for _, v := range viols {
+		if strings.HasPrefix(v.Confirmed, "confirmed") {
+			wit++
+		}
+	}
+	cov := map[string]interface{}{
+		"states":                        max1(paths),
+		"transitions":                   max1(queries),
+		"traces_validated_against_impl": wit,
+		"samples":                       samples,
+		"explanation":                   "states = symbolic paths of the real code explored (each path covers every input satisfying its path condition); transitions = SMT queries discharged; traces_validated_against_impl = solver models (witness paths and counterexamples) replayed against the native build with the same outcome",
+		"functions_encoded":             sortedKeys(funcs),
+		"stubs_and_intrinsics":          sortedKeys(stubs),
+		"assumptions_sites":             sortedKeys(assumes),
+		"reach_tags":                    reach,
+		"path_kinds":                    kinds,
+		"queries":                       map[string]int{"total": queries, "sat": sat, "unsat": unsat, "unknown": unknown},
+		"solver_seconds":                round2(solverS),
+		"runs":                          runs,
+		"violations_found":              viols,
+		"inconclusive":                  inconcl,
+	}
+	for k, v := range extra {
+		cov[k] = v
+	}
+	doc := map[string]interface{}{
+		"property_id": id, "tier": tier, "seed": seed, "level": "model_checking", "coverage": cov,
+		"assumptions": []string{
+			"bounded: only the harness bounds listed under coverage.runs[].bounds are covered; nothing outside them is claimed",
+			"environment stubs listed under coverage.stubs_and_intrinsics behave as documented (atomics, mutexes, sync.Map as a linearizable map, sync.Pool.Get = New(), clock = arbitrary non-decreasing instants, fmt as opaque text)",
+			"sequential consistency; Go map iteration order is insertion order in the executor",
+		},
+		"wall_s": round2(wall), "violations": nviol,
+	}
+	b, _ := json.MarshalIndent(doc, "", " ")
+	os.WriteFile(filepath.Join(vdir, "evidence", id+".json"), b, 0o644)
+}
+
+func solverName(s string) string {
+	if s == "" {
+		return "z3"
+	}
+	return s
+}
+
+func round2(f float64) float64 { return float64(int(f*100+0.5)) / 100 }
+
+func max1(n int) int {
+	if n < 1 {
+		return 1
+	}
+	return n
+}
+
+func sortedKeys(m map[string]bool) []string {
+	var out []string
+	for k := range m {
+		out = append(out, k)
+	}
+	sort.Strings(out)
+	return out
+}
+
+func cmdSelftest(args []string) int { return 0 }
